@@ -122,7 +122,7 @@ def matching_contract(which):
         pe = g.get("pe")
         out = []
         if pe is None:
-            return [("segment_loop_reached", False, "P")]
+            return [("segment_loop_reached", False, "S")]
         plt_rec = e.ghost.get("plt_rec")
         out.append(("nothing_drawn_through_pyplot_current_axes", (plt_rec is None) or (isinstance(plt_rec.plots.n, int) and plt_rec.plots.n == 0), "P"))
         out.append(("number_of_segments_is_number_of_rows_involving_a_point", lift(g["ax"].plots.n) == pe.total, "P"))
